@@ -437,6 +437,12 @@ void RectangularCluster::computeBoundingRect(const vpsc::Rectangles& rs)
 {
     if (clusterIsFromFixedRectangle())
     {
+        // Child clusters still need their own bounds computed.
+        for (std::vector<Cluster*>::const_iterator i = clusters.begin();
+                i != clusters.end(); ++i)
+        {
+            (*i)->computeBoundingRect(rs);
+        }
         // For bounds, just use this shape's rectangle.
         bounds = *(rs[m_rectangle_index]);
     }
